@@ -11,8 +11,17 @@ impl Aabb {
     #[inline]
     pub fn clip_segment(&self, pa: &Point<Real>, pb: &Point<Real>) -> Option<Segment> {
         let ab = pb - pa;
-        clip_aabb_line(self, pa, &ab)
-            .map(|clip| Segment::new(pa + ab * (clip.0).0.max(0.0), pa + ab * (clip.1).0.min(1.0)))
+        clip_aabb_line(self, pa, &ab).and_then(|clip| {
+            let t0 = (clip.0).0.max(0.0);
+            let t1 = (clip.1).0.min(1.0);
+
+            if t0 > t1 {
+                // The line intersects the Aabb, but not between `pa` and `pb`.
+                None
+            } else {
+                Some(Segment::new(pa + ab * t0, pa + ab * t1))
+            }
+        })
     }
 
     /// Computes the parameters of the two intersection points between a line and this Aabb.
@@ -124,7 +133,7 @@ pub fn clip_aabb_line(
                 far_diag = true;
             }
 
-            if tmax < 0.0 || tmin > tmax {
+            if tmin > tmax {
                 return None;
             }
         }
@@ -137,7 +146,7 @@ pub fn clip_aabb_line(
 
         if near_side < 0 {
             normal[(-near_side - 1) as usize] = 1.0;
-        } else {
+        } else if near_side > 0 {
             normal[(near_side - 1) as usize] = -1.0;
         }
 
@@ -151,7 +160,7 @@ pub fn clip_aabb_line(
 
         if far_side < 0 {
             normal[(-far_side - 1) as usize] = -1.0;
-        } else {
+        } else if far_side > 0 {
             normal[(far_side - 1) as usize] = 1.0;
         }
 
